@@ -83,7 +83,10 @@ def c01rf (a : List String) (obs : String) : String × String :=
         if h.len ≤ rest.length then
           let exp := s!"ok,{hdrStr h},{Bytes.toHex (rest.take h.len)},{k2 + h.len}"
           if obs == exp then "ok" else s!"bad:expected:{exp}"
-        else if obs.startsWith "err," then "ok" else "bad:cut-frame-reported-ok"
+        else if !obs.startsWith "err," then "bad:cut-frame-reported-ok"
+        -- C16: a payload cut after at least one of its bytes is never a clean end of stream
+        else if rest.length ≥ 1 && fin.startsWith "E" && obs == "err,eof" then "bad:cut-payload-reported-as-clean-EOF"
+        else "ok"
       | _ => if obs.startsWith "err," then "ok" else "bad:expected-error"
     (model, verdict)
   | _ => ("BADOP", "skip")
